@@ -49,6 +49,7 @@ LEVEL_NOTE = ("Trusted: the FIFO/chunking pool model (bound to the real pool by 
               "more than 3 sensors, worker crashes.")
 
 UNIT = 0.04   # seconds between forced completions on the real pool
+MAX_RUNS = 60000
 
 
 def _mask(rows):
@@ -202,7 +203,10 @@ def _explore(p):
         return ch, (obs, list(ch.orders), fake.pools_created)
 
     t0 = time.time()
-    runs, capped = sched.explore(run, bound=bound)
+    # the cap is far above anything the unchanged builder needs (<= 1296 schedules per history in the quick
+    # tier, <= 46656 in the thorough one); it only bites when a changed builder submits many more tasks per call
+    runs, capped = sched.explore(run, bound=bound, max_runs=MAX_RUNS, max_bad=40,
+                                 is_bad=lambda ob: any(not (x[0] and x[1] and x[2] and x[4]) for x in ob[0]))
     if capped:
         o.stat("caps_hit", 1)
     o.stat("schedules_explored", len(runs))
